@@ -6,7 +6,7 @@
     are driven at the same time (one goroutine each) and share the pool of
     hashers; the recorded hasher operations are replayed on Model/TPMPool.v. *)
 From Coq Require Import Strings.Byte.
-From CSS Require Import Lib.Base Lib.Cases Model.TPM Model.TPMSlices Model.TPMPool.
+From CSS Require Import Lib.Base Lib.Cases Model.TPM Model.TPMSlices Model.TPMPool Model.TPMExec.
 
 (** * Packed byte-string literals
 
@@ -49,6 +49,11 @@ Definition get_grid : list (Z * Z) :=
 
 (** What the harness saw after one command:
     [r]       error class of the call (nil / error / panic);
+    [ek]      which error: the harness classifies the error message by the
+              statement that produces it (1 "already initialized", 2 "invalid
+              hash algo", 3 "PCR n is not initialized", 4 "PCR n:alg is not
+              initialized", 5 "internal error ... != ..."; 0 when no error was
+              returned) -- the model's [ERR_*] codes;
     [dgets]   [PCRValues.Get] (error vs bytes) at every point of [get_grid] whose
               observation differs from the one after the previous command
               (index into [get_grid], new observation); the points not listed
@@ -60,8 +65,20 @@ Definition get_grid : list (Z * Z) :=
     [full]    at the end of every sub-history (and at random steps): the whole
               CommandLog and EventLog, structurally (kind + arguments). *)
 Inductive sobs : Type :=
-| SO (r : obs unit) (dgets : list (Z * obs (list Z))) (al : option (list Z))
+| SO (r : obs unit) (ek : Z) (dgets : list (Z * obs (list Z))) (al : option (list Z))
      (cl_len el_len : Z) (full : option (list cmd * list event)).
+
+(** What the harness saw after one operation of an API-level case: as [sobs],
+    with the command log as entries (command -- nested for Commands slices --
+    and cause), plus
+    [rep]     at random steps: [log.Commands().Apply(ctx, NewTPM())] was run on the
+              side; what it returned (class, error kind), every Get on the NEW
+              object that does not fail (index into [get_grid], value), and
+              len(EventLog) of the new object. *)
+Inductive xsobs : Type :=
+| XSO (r : obs unit) (ek : Z) (dgets : list (Z * obs (list Z))) (al : option (list Z))
+      (cl_len el_len : Z) (full : option (list entry * list event))
+      (rep : option (obs unit * Z * list (Z * obs (list Z)) * Z)).
 
 (** Either the object came from NewTPM(), or it is an object already used by
     earlier cases and the history starts with Reset/ResetNoInit -- whose effect
@@ -77,7 +94,13 @@ Inductive case : Type :=
     scheduler, the hasher operations of all objects in the order in which they
     happened; [None] for a run with really parallel goroutines. *)
 | CConc (tbl : hash_table) (hs : list (Z * list Z)) (objs : list (list (cmd * sobs)))
-        (trace : option (list tev)).
+        (trace : option (list tev))
+(** ONE object driven through the API level (Model/TPMExec.v): TPMExecute with
+    single commands and Commands slices, with and without a cause, direct Apply,
+    PCRValues.Set, Reset / ResetNoInit.  [zero]: the object was created as the
+    zero value [&tpm.TPM{}] instead of NewTPM() (an object reused from earlier
+    cases starts with a reset, so that [zero = false] fits it as well). *)
+| CExec (tbl : hash_table) (zero : bool) (xsteps : list (op * xsobs)).
 
 Definition unit_eqb (_ _ : unit) : bool := true.
 
@@ -133,11 +156,28 @@ Fixpoint gets_match (i : Z) (grid : list (Z * Z)) (dgets : list (Z * obs (list Z
       end && gets_match (i + 1) t dgets pv pv'
   end.
 
+(** SHA-3 identifiers (39..41): whether [tpm2.Algorithm.Hash] accepts them
+    depends on what is linked into the binary; when it does not, the error comes
+    from acquireHasher ("invalid hash algo") instead of one line later *)
+Definition sha3_cmd (c : cmd) : bool :=
+  match c with
+  | Extend _ a _ => (39 <=? a) && (a <=? 41)
+  | _ => false
+  end.
+
+(** the error was produced by the statement the model says *)
+Definition ek_matches (sha3 : bool) (ek : Z) (r : outcome unit) : bool :=
+  match r with
+  | Err e => (ek =? e) || (sha3 && (ek =? ERR_BAD_ALG))
+  | _ => ek =? 0
+  end.
+
 (** model-side comparison of one step: [st] before, [st'] after, [r] the outcome *)
-Definition step_matches (st st' : state) (r : outcome unit) (o : sobs) : bool :=
+Definition step_matches (c : cmd) (st st' : state) (r : outcome unit) (o : sobs) : bool :=
   match o with
-  | SO r' dgets al cl_len el_len full =>
+  | SO r' ek dgets al cl_len el_len full =>
       obs_match unit_eqb r' r
+      && ek_matches (sha3_cmd c) ek r
       && gets_match 0 get_grid dgets (pcrs st) (pcrs st')
       && match al with
          | None => zlist_eqb (algos st) (algos st')
@@ -156,7 +196,7 @@ Fixpoint check_steps (H : Z -> list Z -> list Z) (st : state) (steps : list (cmd
   | [] => true
   | (c, o) :: t =>
       let '(st', r) := step H st c in
-      step_matches st st' r o && check_steps H st' t
+      step_matches c st st' r o && check_steps H st' t
   end.
 
 (** the same comparison for the buffer-level model, observed through [abs];
@@ -166,7 +206,7 @@ Fixpoint scheck_steps (H : Z -> list Z -> list Z) (s : sstate) (steps : list (cm
   | [] => true
   | (c, o) :: t =>
       let '(s', r) := sstep H (fun n => n) s c in
-      step_matches (abs s) (abs s') r o && scheck_steps H s' t
+      step_matches c (abs s) (abs s') r o && scheck_steps H s' t
   end.
 
 Definition state_eqb (s1 s2 : state) : bool :=
@@ -178,7 +218,7 @@ Definition state_eqb (s1 s2 : state) : bool :=
 Fixpoint res_match (steps : list (cmd * sobs)) (rs : list (outcome unit)) : bool :=
   match steps, rs with
   | [], [] => true
-  | (_, SO r' _ _ _ _ _) :: t, r :: rt => obs_match unit_eqb r' r && res_match t rt
+  | (_, SO r' _ _ _ _ _ _) :: t, r :: rt => obs_match unit_eqb r' r && res_match t rt
   | _, _ => false
   end.
 
@@ -195,6 +235,71 @@ Fixpoint actors_done (H : Z -> list Z -> list Z) (w : world) (j : nat)
           state_eqb (a_obj a) (run H fresh (map fst steps)) && res_match steps (a_res a)
       | _, _ => false
       end && actors_done H w (S j) t
+  end.
+
+(** * API-level cases *)
+
+Fixpoint xcmd_eqb (x y : xcmd) : bool :=
+  match x, y with
+  | XOne c, XOne c' => cmd_eqb c c'
+  | XMany l, XMany l' =>
+      (fix go (l l' : list xcmd) : bool :=
+         match l, l' with
+         | [], [] => true
+         | a :: t, b :: t' => xcmd_eqb a b && go t t'
+         | _, _ => false
+         end) l l'
+  | _, _ => false
+  end.
+
+Definition cause_eqb (a b : cause) : bool :=
+  opt_eqb (fun x y => (fst x =? fst y) && (snd x =? snd y)) a b.
+
+Definition entry_eqb (a b : entry) : bool :=
+  xcmd_eqb (e_cmd a) (e_cmd b) && cause_eqb (e_cause a) (e_cause b).
+
+Definition op_sha3 (o : op) : bool :=
+  match o with
+  | OExec x _ | OApply x => existsb sha3_cmd (flat x)
+  | _ => false
+  end.
+
+Definition log_flat_cmds (s : xstate) : list cmd := flat_map (fun e => flat (e_cmd e)) (x_log s).
+
+Definition xstep_matches (H : Z -> list Z -> list Z) (o : op) (s s' : xstate) (r : outcome unit) (ob : xsobs) : bool :=
+  match ob with
+  | XSO r' ek dgets al cl_len el_len full rep =>
+      obs_match unit_eqb r' r
+      && ek_matches (op_sha3 o) ek r
+      && gets_match 0 get_grid dgets (x_pcrs s) (x_pcrs s')
+      && match al with
+         | None => zlist_eqb (x_algos s) (x_algos s')
+         | Some l => zlist_eqb l (x_algos s')
+         end
+      && (cl_len =? Z.of_nat (length (x_log s')))
+      && (el_len =? Z.of_nat (length (x_evlog s')))
+      && match full with
+         | None => true
+         | Some (cl, el) => list_eqb entry_eqb cl (x_log s') && list_eqb event_eqb el (x_evlog s')
+         end
+      && match rep with
+         | None => true
+         | Some (rr, rek, rgets, rel) =>
+             let '(st, mr) := replay_on_new H s' in
+             obs_match unit_eqb rr mr
+             && ek_matches (existsb sha3_cmd (log_flat_cmds s')) rek mr
+             (* baseline: an object on which every Get fails *)
+             && gets_match 0 get_grid rgets [] (pcrs st)
+             && (rel =? Z.of_nat (length (evlog st)))
+         end
+  end.
+
+Fixpoint xcheck_steps (H : Z -> list Z -> list Z) (s : xstate) (steps : list (op * xsobs)) : bool :=
+  match steps with
+  | [] => true
+  | (o, ob) :: t =>
+      let '(s', r) := xstep H s o in
+      xstep_matches H o s s' r ob && xcheck_steps H s' t
   end.
 
 (** [CConc]: (1) every object, looked at alone, matches the value model and the
@@ -220,6 +325,8 @@ Definition check (c : case) : bool :=
              | None => false
              end
          end
+  | CExec tbl zero xsteps =>
+      xcheck_steps (H_tbl tbl) (if zero then xblank else xfresh) xsteps
   end.
 
 Definition mismatches := mismatches_by check.
